@@ -68,8 +68,10 @@ def rand_params(rng, i):
     aops = rng.choice([0.05, 0.25, 0.5, 0.9])
     ou_hi = (1 + su) / aops - 1
     ou = rng.choice([0.1, 0.0, -0.3, -0.9, min(0.5, ou_hi * 0.9), ou_hi * 0.95])
-    if not (-1 < ou < ou_hi):
-        ou = 0.0 if 0.0 < ou_hi else ou_hi - 0.01
+    # strictly inside the domain: exactly ON the bound (e.g. su=-0.45, aops=0.5 -> bound 0.1 = candidate 0.1) the
+    # parameters are mathematically invalid and only float rounding in _check_params lets them through
+    if not (-1 < ou < ou_hi - 1e-6):
+        ou = 0.0 if 0.0 < ou_hi - 1e-6 else ou_hi - 0.01
     ru = rng.choice([0.1, 0.0, -0.5, 0.7])
     ratio = rng.choice([1, 1, 0.5, 2, 0.1, 3.7])
     arpo = rng.choice([10, 1, 123.4])
